@@ -64,7 +64,17 @@ def pPattern : P (Option (Pattern Nat)) := do
     pure (some ⟨ffAbs == 1, if hasPwr == 1 then some pwr else none, dist, zen, azi,
       if g == "-" then none else some (unhex g)⟩)
 
-def pModel : P (Model Nat × Option (Pattern Nat)) := do
+def pNear : P (Option (NearReq Nat)) := do
+  let k ← nextTok
+  if k == "nonear" then pure none
+  else
+    let rg : P (Nat × Nat × Int) := do
+      let a ← pNat; let b ← pNat; let c ← pNat; pure (a, b, (c : Int))
+    let x ← rg; let y ← rg; let z ← rg
+    let hasPwr ← pNat; let pwr ← pNat
+    pure (some ⟨x, y, z, if hasPwr == 1 then some pwr else none⟩)
+
+def pModel : P (Model Nat × Tail Nat) := do
   let file ← nextTok
   let f ← pNat
   let env ← pEnv
@@ -76,7 +86,8 @@ def pModel : P (Model Nat × Option (Pattern Nat)) := do
   let nl ← pNat
   let loads ← pRepeat pLoad nl
   let pat ← pPattern
-  pure (⟨unhex file, f, env, objs.flatMap emulate, srcs, isS == 1, loads⟩, pat)
+  let nr ← pNear
+  pure (⟨unhex file, f, env, objs.flatMap emulate, srcs, isS == 1, loads⟩, ⟨pat, nr⟩)
 
 def showTok : Tok Nat → String
   | .lit s => "L" ++ hex s
@@ -87,10 +98,10 @@ def opBasic (args : List String) : String :=
   match args with
   | "write" :: rest =>
     match (pModel.run rest) with
-    | some ((m, pat), _) =>
-      let lines := writeAntenna m ++ writeTail pat
-      let rt := match readAntenna 0 (writeAntenna m ++ writeTail pat) with
-        | some (m', r) => decide (m' = m) && decide (r = writeTail pat)
+    | some ((m, tl), _) =>
+      let lines := writeAntenna m ++ writeTail tl
+      let rt := match readAntenna 0 (writeAntenna m ++ writeTail tl) with
+        | some (m', r) => decide (m' = m) && decide (readTail 0 r = some tl)
         | none => false
       (if rt then "1" else "0") ++ " " ++ "|".intercalate (lines.map fun l => ",".intercalate (l.map showTok))
     | none => "parse-error"
